@@ -275,6 +275,20 @@ pub fn run_message_mask(
         }
     };
     let v = judge(&view, &call);
+    rep.sample(4, || {
+        let mut o = crate::json::J::obj();
+        o.set("context", crate::json::J::s(ctxname));
+        o.set("route", crate::json::J::s(&format!("{:?}", via)));
+        o.set("bits_seen_by_decoder", crate::json::J::i(view.len() as u64));
+        o.set("armored", crate::json::J::bytes(&bits.to_armor().0[..bits.to_armor().0.len().min(60)]));
+        o.set("reference", crate::json::J::s(&match &v.refout {
+            RefOut::Msg(m) => format!("{} ({} fields, must accept: {})", m.variant, m.f.len(), m.must_ok),
+            other => format!("{:?}", other),
+        }));
+        o.set("observed", crate::json::J::s(v.outcome));
+        o.set("mismatches", crate::json::J::i(v.mismatches.len() as u64));
+        o
+    });
     let mut reported = false;
     for m in &v.mismatches {
         let owned = m.prop <= 1 || (mask >> m.prop) & 1 == 1;
